@@ -102,7 +102,7 @@ def cases(tier):
         for n in TIMED:
             for body in BODIES:
                 for tail in TAILS:
-                    for start in (0, 3) if thorough else (0,):
+                    for start in (0, 3, -2) if thorough else (0, -2):       # (-2: the date 0 is then a future date)
                         out.append(program(pre, n, body, tail, 'none', start))
         for key, (n, helpers) in NOTIFS.items():
             for h in helpers:
